@@ -1,6 +1,6 @@
 //go:build verif
 
-package fakes
+package zkfake
 
 // A fake ZooKeeper ensemble speaking the jute wire protocol over net.Pipe, for the REAL
 // go-zookeeper client used by internal/dcs/zk.go.  One znode tree with versions and ephemeral
@@ -110,6 +110,8 @@ type ZkServer struct {
 	CurOp map[string]int
 	// Events seen by the driver (session open / expire), in server order with the primitive log
 	OnPrim func(p ZkPrim)
+	// OnSess reports "session" (opened) / "expire" (ended, ephemerals removed) in server order
+	OnSess func(kind, client string, sid int64)
 }
 
 func NewZkServer() *ZkServer {
@@ -411,6 +413,9 @@ func (s *ZkServer) expireLocked(sess *ZSession) {
 		return
 	}
 	sess.Alive = false
+	if s.OnSess != nil {
+		s.OnSess("expire", sess.Client, sess.ID)
+	}
 	for p, n := range s.Nodes {
 		if n.Owner == sess.ID {
 			delete(s.Nodes, p)
@@ -539,6 +544,9 @@ func (s *ZkServer) serve(c net.Conn, client string) {
 		s.nextSid++
 		sess = &ZSession{ID: s.nextSid, Client: client, Alive: true, Timeout: time.Duration(timeoutMs) * time.Millisecond}
 		s.Sessions[sess.ID] = sess
+		if s.OnSess != nil {
+			s.OnSess("session", client, sess.ID)
+		}
 	}
 	if sess.Conn != nil {
 		sess.Conn.Close()
@@ -694,6 +702,35 @@ func (s *ZkServer) PutRaw(path string, data []byte, owner int64) {
 		}
 	}
 	s.Nodes[path] = &ZNode{Data: data, Owner: owner, Czxid: s.zxid, Mzxid: s.zxid}
+}
+
+func (s *ZkServer) SetUnreachable(client string, v bool) {
+	s.Mu.Lock()
+	s.Unreachable[client] = v
+	s.Mu.Unlock()
+}
+
+// PutRawIfParent writes a persistent node directly when its parent exists and the node is not an
+// ephemeral one (keeps the tree well-formed); reports whether it did.
+func (s *ZkServer) PutRawIfParent(path string, data []byte) bool {
+	s.Mu.Lock()
+	defer s.Mu.Unlock()
+	if s.node(zkParent(path)) == nil || s.node(zkParent(path)).Owner != 0 {
+		return false
+	}
+	if n := s.Nodes[path]; n != nil {
+		if n.Owner != 0 {
+			return false
+		}
+		s.zxid++
+		n.Data = data
+		n.Version++
+		n.Mzxid = s.zxid
+		return true
+	}
+	s.zxid++
+	s.Nodes[path] = &ZNode{Data: data, Czxid: s.zxid, Mzxid: s.zxid}
+	return true
 }
 
 func (s *ZkServer) TakeLog() []ZkPrim {
